@@ -8,6 +8,8 @@ import (
 	"sort"
 	"strings"
 	"time"
+
+	"servitor/verifshim/simexec"
 )
 
 // C07 — keys do what the keymap says on every history and never crash the UI.
@@ -53,6 +55,9 @@ type kmModel struct {
 	footer string // expected footer prefix for the frame after the last key ("" = none)
 	lost   bool   // the model met a don't-care input and stopped judging
 	why    string
+	hookFails bool // the media hook of this run exits non-zero (the UI then shows a problem line)
+	hookSlow  bool // ... after a few seconds, so that keys can be pressed while it runs
+	spawned   bool // the last key started the hook
 }
 
 func postItem(p *TPost) mItem   { return mItem{sig: p.Tok, post: p} }
@@ -200,6 +205,7 @@ func linksOf(it mItem) []string {
 // key applies one key press to the model.
 func (m *kmModel) key(b byte) {
 	m.footer = ""
+	m.spawned = false
 	switch m.mode {
 	case "command":
 		switch b {
@@ -267,8 +273,9 @@ func (m *kmModel) key(b byte) {
 			}
 			if b == '.' {
 				m.add(m.resolve(links[n-1]))
+			} else {
+				m.external()
 			}
-			// Enter: opened externally, the page stays
 		default:
 			// the keymap does not say what other keys do while a number is being typed
 			m.lost, m.why = true, fmt.Sprintf("key %q while selecting", b)
@@ -338,6 +345,37 @@ func (m *kmModel) key(b byte) {
 		if it, ok := m.current(); ok && it.act != nil {
 			m.add(m.threadPage(actorItem(it.act.Actor)))
 		}
+	case b == 'o':
+		if it, ok := m.current(); ok {
+			p := it.post
+			if it.act != nil {
+				p = it.act.Object
+			}
+			if p != nil && p.MediaHasString {
+				// the pinned tree does not turn a bare-string url into a link (NewLink is handed an
+				// object.Object where it expects a map); whether 'o' opens it is not judged
+				m.lost, m.why = true, "post url given as a bare string"
+			} else if p != nil && len(p.Media) > 0 {
+				m.external()
+			}
+		}
+	case b == 'p':
+		if it, ok := m.current(); ok && it.actor != nil && len(it.actor.Icon) > 0 {
+			m.external()
+		}
+	case b == 'b':
+		if it, ok := m.current(); ok && it.actor != nil && len(it.actor.Banner) > 0 {
+			m.external()
+		}
+	}
+}
+
+// external: the hook was started for the highlighted item. Once it has ended, a failure is
+// reported on the status line — unless the user has moved on to another mode meanwhile.
+func (m *kmModel) external() {
+	m.spawned = true
+	if m.hookFails {
+		m.footer = "Failed to open link"
 	}
 }
 
@@ -354,6 +392,7 @@ type frameObs struct {
 	hasFooter bool
 	loading   bool
 	hasCursor bool
+	roomBelow int // rows between the end of the cursor block and the end of the content area
 }
 
 func observe(frame string) frameObs {
@@ -389,6 +428,7 @@ func observe(frame string) frameObs {
 	o.cursor = tokRe.FindAllString(strings.Join(lines[first:end+1], "\n"), -1)
 	o.above = tokRe.FindAllString(strings.Join(lines[:first], "\n"), -1)
 	o.below = tokRe.FindAllString(strings.Join(lines[end+1:], "\n"), -1)
+	o.roomBelow = len(lines) - (end + 1)
 	return o
 }
 
@@ -439,12 +479,29 @@ func isSubsequence(want, have []string) bool {
 
 func scenC07(r *Run, judged bool) {
 	t := r.W
-	tn := buildTown(r, TownOpts{Paged: t.Chance(1, 2)})
+	tn := buildTown(r, TownOpts{Paged: t.Chance(1, 2), Markdown: true})
 	r.S.PanicProp = "C07"
 	w, h := 70+t.Draw(60), 30+t.Draw(40)
 	u := newUISession(r, w, h)
-	u.ExecOutcome = nil
 	m := &kmModel{tn: tn, feeds: r.Job.Cfg.Feeds, mode: "normal", idx: -1}
+	switch t.Weighted(4, 2, 2, 2) {
+	case 1:
+		m.hookFails = true
+	case 2:
+		m.hookSlow = true
+	case 3:
+		m.hookFails, m.hookSlow = true, true
+	}
+	u.ExecOutcome = func(rec simexec.Record) simexec.Outcome {
+		var o simexec.Outcome
+		if m.hookFails {
+			o.ExitCode, o.Output = 1, []byte("no viewer for this")
+		}
+		if m.hookSlow {
+			o.Delay = 3 * time.Second
+		}
+		return o
+	}
 	g := &keyGen{r: r, tn: tn}
 	preload := r.Job.Cfg.Preload
 	if !judged {
@@ -482,39 +539,52 @@ func scenC07(r *Run, judged bool) {
 		uiLiveness(r, u, false)
 		return
 	}
+	// run from C09's plan, the same sessions judge what is listed around the highlighted item
+	// (C09 at the level of the screen); everything else is C07's.
+	viol := func(kind, detail string) {
+		if r.Job.Prop == "C09" {
+			switch {
+			case strings.HasPrefix(kind, "wrong-item-"), strings.HasPrefix(kind, "unexpected-item-"), strings.HasPrefix(kind, "missing-item-"),
+				strings.HasPrefix(kind, "cursor-off-by"), kind == "wrong-item-highlighted", kind == "item-on-empty-page", kind == "still-loading-when-settled":
+				r.Violate("C09", "ui-listing", kind, detail)
+			}
+			return
+		}
+		r.Violate("C07", "model", kind, detail)
+	}
 	compare := func(after string) bool {
 		if !judged || m.lost {
 			return true
 		}
 		fr, ok := u.LastFrame()
 		if !ok {
-			r.Violate("C07", "model", "no-frame", "no frame was ever emitted")
+			viol("no-frame", "no frame was ever emitted")
 			return false
 		}
 		o := observe(fr.Text)
 		ctx := fmt.Sprintf("after %s (keys so far %v, start %s %s)", after, typed, startCmd, startArg)
 		if o.loading {
-			r.Violate("C07", "model", "still-loading-when-settled", "the last frame still says Loading… although nothing is in flight "+ctx)
+			viol("still-loading-when-settled", "the last frame still says Loading… although nothing is in flight "+ctx)
 			return false
 		}
 		p := m.page()
 		// mode / footer
 		switch {
 		case m.footer == "" && o.hasFooter:
-			r.Violate("C07", "model", "unexpected-footer", fmt.Sprintf("frame has status line %q, the keymap predicts none %s", o.footer, ctx))
+			viol("unexpected-footer", fmt.Sprintf("frame has status line %q, the keymap predicts none %s", o.footer, ctx))
 			return false
 		case m.footer != "" && !o.hasFooter:
-			r.Violate("C07", "model", "missing-footer", fmt.Sprintf("the keymap predicts a status line starting with %q, the frame has none %s", m.footer, ctx))
+			viol("missing-footer", fmt.Sprintf("the keymap predicts a status line starting with %q, the frame has none %s", m.footer, ctx))
 			return false
 		case m.footer != "" && !strings.HasPrefix(o.footer, m.footer):
-			r.Violate("C07", "model", "wrong-footer", fmt.Sprintf("status line %q, expected it to start with %q %s", o.footer, m.footer, ctx))
+			viol("wrong-footer", fmt.Sprintf("status line %q, expected it to start with %q %s", o.footer, m.footer, ctx))
 			return false
 		}
 		// highlighted item
 		cur, ok := m.current()
 		if !ok {
 			if len(o.cursor) > 0 {
-				r.Violate("C07", "model", "item-on-empty-page", fmt.Sprintf("the page should be empty but %v is highlighted %s", o.cursor, ctx))
+				viol("item-on-empty-page", fmt.Sprintf("the page should be empty but %v is highlighted %s", o.cursor, ctx))
 				return false
 			}
 			return true
@@ -536,7 +606,7 @@ func scenC07(r *Run, judged bool) {
 					}
 				}
 			}
-			r.Violate("C07", "model", kind, fmt.Sprintf("highlighted %q (tokens %v), the keymap predicts %q at position %d of %d on page %d/%d %s", got, o.cursor, cur.sig, p.cur, len(p.items), m.idx+1, len(m.pages), ctx))
+			viol(kind, fmt.Sprintf("highlighted %q (tokens %v), the keymap predicts %q at position %d of %d on page %d/%d %s", got, o.cursor, cur.sig, p.cur, len(p.items), m.idx+1, len(m.pages), ctx))
 			return false
 		}
 		// neighbours within the preloaded window
@@ -567,21 +637,24 @@ func scenC07(r *Run, judged bool) {
 				}
 			}
 			if !okAbove {
-				r.Violate("C07", "model", "wrong-item-above", fmt.Sprintf("the item above the highlighted one should be %q, tokens above are %v %s", prev.sig, o.above, ctx))
+				viol("wrong-item-above", fmt.Sprintf("the item above the highlighted one should be %q, tokens above are %v %s", prev.sig, o.above, ctx))
 				return false
 			}
 		} else if p.cur == 0 && len(o.above) > 0 {
-			r.Violate("C07", "model", "unexpected-item-above", fmt.Sprintf("nothing should be above the highlighted item, tokens above are %v %s", o.above, ctx))
+			viol("unexpected-item-above", fmt.Sprintf("nothing should be above the highlighted item, tokens above are %v %s", o.above, ctx))
 			return false
 		}
 		if p.cur+1 < len(p.items) && p.items[p.cur+1].sig != "" && len(o.below) > 0 {
 			next := p.items[p.cur+1]
 			if o.below[0] != next.first() {
-				r.Violate("C07", "model", "wrong-item-below", fmt.Sprintf("the item below the highlighted one should be %q, tokens below are %v %s", next.sig, o.below, ctx))
+				viol("wrong-item-below", fmt.Sprintf("the item below the highlighted one should be %q, tokens below are %v %s", next.sig, o.below, ctx))
 				return false
 			}
+		} else if p.cur+1 < len(p.items) && p.items[p.cur+1].sig != "" && len(o.below) == 0 && o.roomBelow >= 8 {
+			viol("missing-item-below", fmt.Sprintf("%q should be listed below the highlighted item and there are %d free rows, but nothing is shown %s", p.items[p.cur+1].sig, o.roomBelow, ctx))
+			return false
 		} else if p.cur == len(p.items)-1 && len(o.below) > 0 {
-			r.Violate("C07", "model", "unexpected-item-below", fmt.Sprintf("nothing should be below the highlighted item, tokens below are %v %s", o.below, ctx))
+			viol("unexpected-item-below", fmt.Sprintf("nothing should be below the highlighted item, tokens below are %v %s", o.below, ctx))
 			return false
 		}
 		r.S.Probe("model_steps_agreed")
@@ -602,6 +675,14 @@ func scenC07(r *Run, judged bool) {
 		for ci, c := range act {
 			ki := u.Key(c)
 			m.key(c)
+			if judged && m.hookSlow && m.spawned && ci < len(act)-1 && (act[ci+1] == ':' || (act[ci+1] >= '0' && act[ci+1] <= '9')) {
+				// the hook is still running: the user goes on typing (a command, a number) without
+				// waiting for it; when it ends (even with a failure) that input must not be disturbed
+				r.Drive(func() bool { return u.Returned(ki) }, hugeHorizon, stepCap)
+				r.S.Probe("typing_while_hook_runs")
+				m.footer = "" // the failure of a hook the user has left behind is not reported
+				continue
+			}
 			if judged && burstAction(act) && ci < len(act)-1 {
 				// no settling inside a burst: the next key is pressed as soon as this one was
 				// handled, while the surroundings of the new page are still being loaded
@@ -656,7 +737,12 @@ func burstAction(act []byte) bool {
 // keymap leaves open.
 func (g *keyGen) nextJudged(m *kmModel) []byte {
 	t := g.r.W
-	switch t.Weighted(9, 7, 4, 2, 4, 3, 2, 4, 3, 1, 2, 1, 4) {
+	switch t.Weighted(9, 7, 4, 2, 4, 3, 2, 4, 3, 1, 2, 1, 4, 3) {
+	case 13:
+		// open something externally and go on typing while the hook runs
+		first := []string{"o", "p", "b", "1\r", "2\r"}[t.Draw(5)]
+		then := []string{":op", ":feed x", "12", "3", ":\x7f"}[t.Draw(5)]
+		return []byte(first + then)
 	case 12:
 		// a burst: open a page and move through the history before its surroundings have loaded
 		b := []byte{" cra"[t.Weighted(5, 2, 1, 1)]}
